@@ -323,9 +323,9 @@ func runC07(c *lib.Ctx) error {
 		return replayC07(c)
 	}
 	rb := startRaceBuild(c)
-	burstRounds := 4
+	burstRounds := 16
 	if c.Thorough() {
-		burstRounds = 25
+		burstRounds = 60
 	}
 	burstCh := make(chan burstResult, 1)
 	go func() { burstCh <- limiterBurst(burstRounds) }()
@@ -358,6 +358,9 @@ func runC07(c *lib.Ctx) error {
 		c.Fail(f.Case, f.Key, f.What, f.Input)
 	}
 	c.Count(fmt.Sprintf("limiter-burst-rounds:%d", burstRounds))
+	for _, p := range br.passed {
+		c.Count(fmt.Sprintf("limiter-burst-passed:%d", p))
+	}
 	n += br.n
 	c.Res.Evaluations = n + nl + nr
 	c.Res.DistinctNontrivial = distinct
